@@ -178,16 +178,36 @@ def check_registry_and_mro(ctx, R):
             core_api = M.api_of(M.stream)
             R.ob('DASK-REGISTRY', 'streamz.core.Stream', 'scatter', core_api.get('scatter') is c or 'scatter' in M.stream.methods,
                  'Stream.scatter does not lead to the Dask scatter node', None)
-    # DaskStream.__init__
+    # DaskStream.__init__, on its symbolic normal form: on every path one super().__init__(*args, ...) call that carries
+    # ensure_io_loop=True and the caller's keywords (kwargs[...] = True / kwargs.update(...) / dict(kwargs, ensure_io_loop=True))
+    from ..symexpr import SymEval
     init = ds.methods.get('__init__')
-    from .loopbind import kwargs_sets
-    kwn = init.node.args.kwarg.arg if init is not None and init.node.args.kwarg else None
-    sets = init is not None and kwn is not None and any(
-        kwargs_sets(n, kwn).get('ensure_io_loop') is True for n in own_nodes(init.node) if isinstance(n, (ast.Assign, ast.Expr)))
-    fwd = init is not None and any(isinstance(n, ast.Call) and isinstance(n.func, ast.Attribute) and n.func.attr == '__init__'
-                                   and isinstance(n.func.value, ast.Call) and src(n.func.value.func) == 'super'
-                                   and any(isinstance(a, ast.Starred) for a in n.args)
-                                   and any(k.arg is None for k in n.keywords) for n in own_nodes(init.node))
+    sets = fwd = False
+    if init is not None:
+        kwn = init.node.args.kwarg.arg if init.node.args.kwarg else None
+        van = init.node.args.vararg.arg if init.node.args.vararg else None
+        recs = [r for r in SymEval(M, ds).run(init) if not r.raised]
+        sets = fwd = bool(recs)
+        for r in recs:
+            bcs = [c for c, _s, _l in r.calls if isinstance(c, ast.Call) and isinstance(c.func, ast.Attribute) and c.func.attr == '__init__'
+                   and isinstance(c.func.value, ast.Call) and src(c.func.value.func) == 'super']
+            if len(bcs) != 1:
+                sets = fwd = False
+                break
+            c = bcs[0]
+            kws = {k.arg: k.value for k in c.keywords if k.arg}
+            explicit = isinstance(kws.get('ensure_io_loop'), ast.Constant) and kws['ensure_io_loop'].value is True
+            # kwargs["ensure_io_loop"] = True before the call (recorded as an item store on the kwargs dict)
+            stored = any(isinstance(x, ast.Assign) and isinstance(x.targets[0], ast.Subscript) and isinstance(x.targets[0].value, ast.Name)
+                         and x.targets[0].value.id == kwn and isinstance(x.targets[0].slice, ast.Constant)
+                         and x.targets[0].slice.value == 'ensure_io_loop' and isinstance(x.value, ast.Constant) and x.value.value is True
+                         for x, _s, _l in r.calls) or \
+                any(isinstance(x, ast.Call) and isinstance(x.func, ast.Attribute) and x.func.attr == 'update' and isinstance(x.func.value, ast.Name)
+                    and x.func.value.id == kwn and any(k.arg == 'ensure_io_loop' and isinstance(k.value, ast.Constant) and k.value.value is True
+                                                        for k in x.keywords) for x, _s, _l in r.calls)
+            sets = sets and (explicit or stored)
+            fwd = fwd and any(isinstance(a, ast.Starred) and isinstance(a.value, ast.Name) and a.value.id == van for a in c.args) \
+                and any(k.arg is None and isinstance(k.value, ast.Name) and k.value.id == kwn for k in c.keywords)
     R.ob('MRO-INIT', 'streamz.dask.DaskStream.__init__', 'forwards', bool(sets and fwd),
          'DaskStream.__init__ does not set ensure_io_loop=True and forward *args/**kwargs along the MRO',
          ctx.where(init, init.node.lineno) if init else None)
